@@ -18,7 +18,8 @@ class C16(common.SpecCheck):
             "are always stamped by the generator) - all (space, time) stamps distinct. distinct = distinct (spec, text); "
             "non-trivial = partitioned spec (seed-dependent text)")
     assumptions = ["canvas stand-in records createCanvas/addActivity/displayCanvas; update = in-place += / <<= on a payload",
-                   "coordinate-style stamps on flattened ranks are known finding C16-FLATCOORD (witness only)"]
+                   "coordinate-style stamps on flattened ranks are known finding C16-FLATCOORD (witness only)",
+                   "spacetime over class-A specs: a failing output is attributed to C04-K1/K2 only by counterfactual re-execution"]
 
     def gen(self, rng, k):
         spec, meta = classes.gen_spacetime(rng)
@@ -28,7 +29,15 @@ class C16(common.SpecCheck):
     def unit_args(self, spec, meta, inputs):
         a = super().unit_args(spec, meta, inputs)
         a["canvas"] = True
+        if meta.get("base") == "A":
+            a["counterfactuals"] = common.AFFINE_CF
         return a
+
+    def attribute(self, spec, meta, inputs, results, v):
+        # spacetime over class A meets C04's known findings K1/K2 (float rationals, unclipped interval end)
+        if meta.get("base") == "A":
+            return common.attribute_affine(results, v)
+        return None
 
     def nontrivial(self, spec, meta):
         return bool(meta.get("npart"))
